@@ -654,6 +654,53 @@ theorem calls_merge_current (cur : V) (acts : List (Act J V)) (s : CState J V)
       · cases hr
   exact (gen acts _ s ⟨(by intro j v hv; cases hv), (by intro c hc; cases hc)⟩ h).2
 
+/-! the merge clause does not depend on the dispatcher's request lock -/
+
+theorem sectionInv_stepFree (s s' : CState J V) (a : Act J V) (h : SectionInv merge s)
+    (hs : ChangeSection.stepFree merge s a = some s') : SectionInv merge s' := by
+  obtain ⟨hm, hc⟩ := h
+  cases a with
+  | begin t => simp only [ChangeSection.stepFree] at hs; injection hs with hs; subst hs; exact ⟨hm, hc⟩
+  | finish t => simp only [ChangeSection.stepFree] at hs; injection hs with hs; subst hs; exact ⟨hm, hc⟩
+  | merge t j =>
+    simp only [ChangeSection.stepFree] at hs; split at hs
+    · rename_i ho
+      injection hs with hs; subst hs
+      refine ⟨?_, hc⟩
+      intro j' v' hv
+      simp only [mergeNow] at hv
+      split at hv
+      · rename_i w hw
+        injection hv with hv; injection hv with h1 h2; subst h1; subst h2
+        exact ⟨(by rw [ho]; simp), hw⟩
+      · cases hv
+    · cases hs
+  | acquire t => exact sectionInv_step merge s s' (.acquire t) ⟨hm, hc⟩ hs
+  | call t => exact sectionInv_step merge s s' (.call t) ⟨hm, hc⟩ hs
+  | direct t => exact sectionInv_step merge s s' (.direct t) ⟨hm, hc⟩ hs
+  | store t v => exact sectionInv_step merge s s' (.store t v) ⟨hm, hc⟩ hs
+  | release t => exact sectionInv_step merge s s' (.release t) ⟨hm, hc⟩ hs
+
+/-- **merge_clause_needs_no_request_lock.**  Also when the dispatcher does NOT serialise the requests (`stepFree`: any
+number of requests under way at once, the merge guarded by `accessLock` alone — the code after repair 4e36b36 with the
+dispatcher lock released before the handler runs), every driver call caused by a request is given the payload merged into
+the value cached at the moment of the call.  The clause rests on `accessLock`; what the request lock adds is
+`requests_one_at_a_time`, the precondition of the SEQUENTIAL theorems. -/
+theorem merge_clause_needs_no_request_lock (cur : V) (acts : List (Act J V)) (s : CState J V)
+    (h : ChangeSection.runFree merge (ChangeSection.init cur) acts = some s) : CallsMergeCurrent merge s := by
+  have gen : ∀ (acts : List (Act J V)) (s0 s : CState J V), SectionInv merge s0 →
+      ChangeSection.runFree merge s0 acts = some s → SectionInv merge s := by
+    intro acts
+    induction acts with
+    | nil => intro s0 s h0 hr; injection hr with hr; subst hr; exact h0
+    | cons a rest ih =>
+      intro s0 s h0 hr
+      simp only [ChangeSection.runFree] at hr
+      split at hr
+      · rename_i s1 hs1; exact ih s1 s (sectionInv_stepFree merge s0 s1 a h0 hs1) hr
+      · cases hr
+  exact (gen acts _ s ⟨(by intro j v hv; cases hv), (by intro c hc; cases hc)⟩ h).2
+
 /-- **requests_one_at_a_time.**  In every run of the system the requests are handled strictly one after the other
 (no `begin` while another request is being handled, `finish` only by the thread that began): the precondition under
 which the sequential theorems (`request_ok`, `histories`) describe a node serving several connections. -/
@@ -774,9 +821,21 @@ example : ChangeSection.run mergePI (ChangeSection.init (0, 0))
 
 end changeSection
 
-/-! ### table facts (re-checked whenever the repository's table changes) -/
+open SectionExample in
+/-- two requests under way at once (not a run of `step`: the second `begin` is refused) are a run of the system without
+the request lock, and both calls got their payload merged into the value cached at their moment -/
+example : ChangeSection.run mergePI (ChangeSection.init (0, 0))
+      [.begin 1, .begin 2, .acquire 1, .merge 1 (some 1, none), .call 1, .store 1 (1, 0), .release 1,
+       .acquire 2, .merge 2 (none, some 2), .call 2, .store 2 (1, 2), .release 2, .finish 2, .finish 1] = none ∧
+    ((ChangeSection.runFree mergePI (ChangeSection.init (0, 0))
+      [.begin 1, .begin 2, .acquire 1, .merge 1 (some 1, none), .call 1, .store 1 (1, 0), .release 1,
+       .acquire 2, .merge 2 (none, some 2), .call 2, .store 2 (1, 2), .release 2, .finish 2, .finish 1]).map
+        (fun s => s.calls.map (fun c => (c.current, c.value)))) = some [((0, 0), (1, 0)), ((1, 0), (1, 2))] := by
+  decide
 
 /-- `PREDEFINED_ACCESSIBLES` has no duplicate name: the first-match look-up of the model is the dict look-up -/
+/-! ### table facts (re-checked whenever the repository's table changes) -/
+
 theorem predefined_nodup : (Frappy.Generated.C04.predefined.map (·.1)).Nodup := by decide +kernel
 
 /-- the classes the dispatcher raises carry eight different SECoP names -/
